@@ -130,6 +130,21 @@ pub fn run_case(v: &Value) -> Value {
         }
     }
 
+    // operations applied after the files were added (e.g. an inline module set by name afterwards)
+    if let Some(a) = v.get("post_ops").and_then(|x| x.as_array()) {
+        for op in a {
+            ops.push(
+                op.as_array()
+                    .map(|x| {
+                        x.iter()
+                            .map(|s| s.as_str().unwrap_or("").to_string())
+                            .collect()
+                    })
+                    .unwrap_or_default(),
+            );
+        }
+    }
+
     let new_group = || {
         if dev {
             tc::TmplGroup::new_dev()
